@@ -109,10 +109,28 @@ func (x *Exec) mergeStates(outs []*State, key ssa.Value) *State {
 			m.assume(Not(And(guards[i], guards[j])))
 		}
 	}
+	// facts that hold on every branch are asserted once, unguarded
+	cnt := map[string]int{}
+	for _, s := range outs {
+		seen := map[string]bool{}
+		for _, f := range s.pc[n:] {
+			if !seen[f.S] {
+				seen[f.S] = true
+				cnt[f.S]++
+			}
+		}
+	}
+	for _, f := range outs[0].pc[n:] {
+		if cnt[f.S] == len(outs) {
+			m.assume(f)
+		}
+	}
 	for i, s := range outs {
 		var fs []Term
 		for _, f := range s.pc[n:] {
-			fs = append(fs, f)
+			if cnt[f.S] != len(outs) {
+				fs = append(fs, f)
+			}
 		}
 		m.assume(Implies(guards[i], And(fs...)))
 	}
